@@ -396,7 +396,8 @@ func main() {
 		if (want["equal"] || want["compare"] || want["hash"]) && eq {
 			g.emitEqual()
 		}
-		if want["compare"] && gen.SupportedCompare(env, t) {
+		// (the compare plugin would call the Compare method of NSC, which the models leave out: no compare ops there)
+		if want["compare"] && gen.SupportedCompare(env, t) && gen.MethodsAgree(env, t, "Cs", "\x00") {
 			g.emitCompare(eq && gen.MethodsAgree(env, t, "E", "C") && gen.MethodsAgree(env, t, "C", "E"))
 		}
 		if want["hash"] && gen.SupportedHash(env, t) {
